@@ -132,3 +132,10 @@ Theorem C15_read_only : forall kdf c d o orc,
   snd (fst (step kdf c d o orc)) = d.
 Proof. exact read_only_ops. Qed.
 Print Assumptions C15_read_only.
+
+(* ---- the model's state space is the code's declared state ----
+   (theories/StateInst.v: package-level variables and struct fields listed by tools/facts on every
+   run; the models keep no state between operations other than these components) *)
+From Whawty Require StateInst.
+Theorem C15_store_state_inventory : StateInst.store_state_inventory.
+Proof. exact StateInst.store_state_inventory_holds. Qed.
